@@ -93,7 +93,7 @@ def oracle(acc, rec, doc, rep, seg, pos, resp, stream=None, ref_override=None, v
                 cands = payload_index(stream, fname).get(hashlib.blake2b(frag.payload, digest_size=12).digest())
                 if cands and any(c['index'] == len(st.files[fname]['segs']) for c in cands):
                     last = '|loop-last'
-            acc.violation(f'C02|time|sum-durations!=d|{kind}{last}',
+            acc.violation(f'C02|time|sum-durations!=d|{kind}{last}{vtag}',
                           f'{rec["template"]} {rec["opts"]} at {rec["now"]}: {rep.id} $Time$={seg["t"]} advertised '
                           f'd={seg["d"]} but samples sum to {frag.duration}', r)
     else:
